@@ -222,3 +222,12 @@ impl DevInputWriter {
   }
 }
 
+
+// Verification hook (off unless built with --cfg ellbur_totalmapper_verif):
+// a writer over an already open file descriptor (e.g. a pipe).
+#[cfg(ellbur_totalmapper_verif)]
+impl DevInputWriter {
+  pub fn verif_from_fd(fd: RawFd) -> DevInputWriter {
+    DevInputWriter { fd }
+  }
+}
